@@ -14,6 +14,7 @@ OBJ, CONT, MEM, CMEM = 'obj', 'cont', 'mem', 'cmem'
 # that already has that dtype - its blocks are then the caller's blocks.  It counts as sharing memory only where blocks
 # are handed to a block function (map_blocks / map_overlap callbacks), nowhere else.
 LAZY = 'lazy'
+LSTORE = 'lstore'
 
 
 def lower(vals, to=MEM):
@@ -434,6 +435,13 @@ class _Analyzer:
                 roots = bind.get(ev.root[1], FRESH)
                 if roots:
                     for r, lv in roots:
+                        if ev.level == LSTORE:
+                            if lv in (OBJ, MEM, LAZY):
+                                ne = Event(r, e, 'call of %s: %s' % (g.qualname, ev.kind.split(' (')[0]), self.f)
+                                ne.level = LSTORE
+                                ne.origin = getattr(ev, 'origin', ev)
+                                self.s.events.append(ne)
+                            continue
                         if ev.level == CONT:
                             continue   # the callee mutates its own *args/**kwargs container
                         if lv == LAZY and not getattr(ev, 'via_blocks', False):
@@ -526,6 +534,14 @@ class _Analyzer:
             self.val(t.slice)
             if base:
                 self.mutate(base, node, 'subscript store `%s`' % norm(t)[:60])
+                # a store into `x.astype(t)`: harmless on NumPy (always a copy); on a dask array of that dtype already, astype
+                # hands back the array itself and `__setitem__` rewrites that very object - recorded apart (level LSTORE) and
+                # judged by the rule that knows which functions receive dask arrays
+                for r, lv in base:
+                    if lv == LAZY:
+                        ev = Event(r, node, 'subscript store `%s` into the result of a plain `astype`' % norm(t)[:60], self.f)
+                        ev.level = LSTORE
+                        self.s.events.append(ev)
             if roots and base:
                 for r, lv in roots:
                     self.s.escapes.append((r, node, 'stored into %s' % norm(t.value)))
